@@ -137,10 +137,17 @@ func OracleLeak(w *World, h *History) {
 		case "drained":
 			// every caller has finished, nothing is runnable and no timer is
 			// pending: nothing is in flight any more
-			inflightHandlers := 0
+			inflightHandlers, stubbornExtra := 0, 0
 			for _, id := range h.RPCIDs {
 				r := h.RPCs[id]
 				if r.Plan == nil || r.Plan.Tunnel != p.Tunnel {
+					continue
+				}
+				if inStubbornPause(r, e.Seq) {
+					// runs on after its context ended: its entry is gone if the
+					// stream was finished (cancel frame), still there if only
+					// the tunnel ended (it goes when the handler returns)
+					stubbornExtra++
 					continue
 				}
 				for _, hr := range r.Handlers {
@@ -178,7 +185,7 @@ func OracleLeak(w *World, h *History) {
 			for _, n := range p.ServerTables {
 				total += n
 			}
-			if total < inflightHandlers || total > inflightHandlers+innerMax {
+			if total < inflightHandlers || total > inflightHandlers+innerMax+stubbornExtra {
 				w.AddViolation("C14", "server-table-mismatch", fmt.Sprintf("tunnel %d: %d entries in the server stream table(s) at a quiescent point, but %d handlers are still running", p.Tunnel, total, inflightHandlers),
 					map[string]string{"mark": p.Mark}, e.Seq)
 			}
@@ -277,6 +284,9 @@ func OracleHung(prop string) func(w *World, h *History) {
 					map[string]string{"side": side, "op": opNames[o.Op], "hol": hol}, o.Inv)
 			}
 			for _, hr := range r.Handlers {
+				if inStubbornPause(r, drained) {
+					continue // held by the harness beyond its cancellation, on purpose
+				}
 				if hr.Start < drained && (hr.End == 0 || hr.End > drained) {
 					w.AddViolation(prop, "handler-not-released", fmt.Sprintf("rpc %d: handler started at #%d had not returned at final quiescence (#%d)", id, hr.Start, drained), map[string]string{"side": "handler", "hol": hol}, hr.Start)
 				}
@@ -284,6 +294,20 @@ func OracleHung(prop string) func(w *World, h *History) {
 		}
 		h.holWitness = hol
 	}
+}
+
+// inStubbornPause: the handler of r has seen its context end and is being
+// held by the harness (a handler that does not return promptly) at seq.
+func inStubbornPause(r *RPCHist, seq int64) bool {
+	if r.Plan == nil || !r.Plan.stubborn {
+		return false
+	}
+	for _, o := range r.Ops {
+		if o.Actor == "h" && o.Op == OpPause && o.Idx == 940 && o.Inv < seq && (!o.Returned() || o.Ret > seq) {
+			return true
+		}
+	}
+	return false
 }
 
 // holFromStacks looks for the head-of-line witness in a stack dump.
